@@ -106,7 +106,7 @@ Definition as_dump (lschema : N * N) (t : term) : option world :=
       | Some (gl, gsch), Some bx =>
           let ex := match gl with Some _ => true | None => false end in
           match map_opt (as_local lschema ex) locals with
-          | Some ls => Some (mkW gl gsch lschema ls bx (Z.to_N tb) (Z.to_N tbb))
+          | Some ls => Some (mkW gl gsch lschema ls bx (Z.to_N tb) (Z.to_N tbb) (mkCI 0 0 false))
           | None => None
           end
       | _, _ => None
@@ -208,11 +208,11 @@ Fixpoint do_blocks (P : params) (lschema : N * N) (c : cst) (idx : N) (l : list 
 
 Definition check (t : term) : term :=
   match t with
-  | TL [TS "c23"; TL [TZ mk; TZ mb; TZ mv; TZ ms]; gs; ls; TL blocks] =>
+  | TL [TS "c23"; TL [TZ mk; TZ mb; TZ mv; TZ ms]; TZ creator; gs; ls; TL blocks] =>
       match as_pair gs, as_pair ls with
       | Some gs, Some ls =>
           let P := mkPar (Z.to_N mk) (Z.to_N mb) (Z.to_N mv) (Z.to_N ms) in
-          let c := do_blocks P ls (mkCst (winit gs ls) true true 0 false (TL [])) 0 blocks in
+          let c := do_blocks P ls (mkCst (winit (Z.to_N creator) gs ls) true true 0 false (TL [])) 0 blocks in
           if c_bad c then v_parse else verdict (c_spec c) (c_corr c) (3 <=? c_nt c) (c_first c)
       | _, _ => v_parse
       end
